@@ -546,6 +546,29 @@ def coefficient_check(ctx, c, h):
                            "expected": [math.cos(ang), math.sin(ang)]})
 
 
+def damping_probe(ctx, exe, dsp):
+    """SlidingDFT's per-step damping, measured on the real code: an impulse through the DC bin (coefficient exactly 1) of a
+    4800-sample window decays as rho^(k+1).
+    rho is FloatType(0.999999999999999): exactly 1 in float, 1 - 1.0e-15 (rounded) in double.  Independent of how the source spells it."""
+    if not exe:
+        return
+    for T, gap, tol in (("f", dsp["gap_f"], 1e-6), ("d", dsp["gap_d"], 5e-13)):
+        rc, out = ctx.run_exe(exe, input_text=f"rho {T}\n", timeout=120)
+        m = re.search(r"rho steps=(\d+) .*magld=([0-9.eE+-]+)", out)
+        ctx.case(f"sdft-damping-{T}", True)
+        ctx.count("sdft-damping-probe")
+        if rc != 0 or not m:
+            ctx.tie_broken("sdft-damping-probe", f"harness: rc={rc} {out[-200:]}")
+            continue
+        steps, mag = int(m.group(1)), float(m.group(2))
+        want = (1.0 - float(gap)) ** steps
+        if abs(mag - want) > tol:
+            ctx.violation("sdft-damping", "SlidingDFT's output decays at another rate than the definition's damping factor FloatType(0.999999999999999) "
+                          "(a persistent tone leaks away / the window never forgets)",
+                          {"instantiation": "float" if T == "f" else "double", "impulse_response_magnitude_after_steps": steps, "measured": mag,
+                           "expected": want, "tolerance": tol, "per_step_factor_measured": mag ** (1.0 / steps), "case": f"rho {T}"})
+
+
 def run(ctx):
     import time
     t0 = time.time()
@@ -560,6 +583,7 @@ def run(ctx):
         ctx.log(f"dsp constants could not be read from the current source ({e}); using the pinned tree's values")
         dsp = {"gap_d": 2.0 ** -50, "gap_f": 0.0, "dcd_sr": 48000, "dcd_N": 120, "dcd_freqs": [2400, 3600]}
     ctx.log(f"harness built at +{time.time() - t0:.1f}s")
+    damping_probe(ctx, exe, dsp)
     table_checks(ctx, exe)
     ctx.log(f"table checks done at +{time.time() - t0:.1f}s")
     cases = gen_cases(ctx, dsp)
